@@ -367,8 +367,9 @@ def inRange (r : Option (Nat × Nat)) (x : Nat) : Bool :=
   | some (a, b) => a ≤ x && x < b
 
 /-- `get_cells` row filter; `lockSearch` = the search key is a lock script, so the filter script
-and `script_len_range` apply to the type script. `lenIncl` = `get_cells_capacity`'s variant of the
-script_len_range test (`> r1` instead of `>= r1`). -/
+and `script_len_range` apply to the type script. `lenIncl` = the variant of the script_len_range test
+that `get_cells_capacity` had BEFORE the repair 963ba99 (`> r1` instead of `>= r1`); the code now
+uses `lenIncl = false` everywhere. -/
 def cellPasses (f : Filter) (lockSearch : Bool) (lenIncl : Bool) (c : Cell) : Bool :=
   (match f.script with
    | none => true
@@ -449,7 +450,16 @@ def getCellsPages (s : Store) (lockSearch : Bool) (q : Script) (exact : Bool) (f
       | none => none
       | some rest => some (page :: rest)
 
+/-- `get_cells_capacity` (since the repair 963ba99 the `script_len_range` test is the one of
+`get_cells`: `script_len < r0 || script_len >= r1`) -/
 def getCellsCapacity (s : Store) (lockSearch : Bool) (q : Script) (exact : Bool) (f : Filter) :
+    Option Nat :=
+  (cellRows s lockSearch q exact f false (scan s (cellPrefix lockSearch q))).map fun l =>
+    (l.map fun a => a.cell.out.cap).foldl (· + ·) 0
+
+/-- `get_cells_capacity` as it was BEFORE the repair 963ba99 (`script_len > r1`: the end of
+`script_len_range` inclusive) — kept only for the pre-fix witness theorem -/
+def getCellsCapacityBuggy (s : Store) (lockSearch : Bool) (q : Script) (exact : Bool) (f : Filter) :
     Option Nat :=
   (cellRows s lockSearch q exact f true (scan s (cellPrefix lockSearch q))).map fun l =>
     (l.map fun a => a.cell.out.cap).foldl (· + ·) 0
